@@ -1,3 +1,4 @@
+mod accept;
 mod checks;
 mod driver;
 mod families;
